@@ -249,7 +249,7 @@ def run(clause, ks):
                     out.append(dict(value=repr(v)[:30], type=f"StrictSubclass[{b.__name__}]", isinstance=isinstance(v, t), meaning=want))
     else:
         raise SystemExit(f"unknown clause {clause}")
-    return dict(clause=clause, kinds=ks, violations=out[:20], n_violations=len(out), pairs_tried=tried)
+    return dict(clause=clause, kinds=ks, violations=out[:20], all_violations=out, n_violations=len(out), pairs_tried=tried)
 
 
 SUITE = [("meaning", [k]) for k in ["Class", "Union", "Inter", "Exactly", "Strict", "HasMethod", "ClassCheck"]] + [("reflexive", [k]) for k in T.KINDS] + [
